@@ -317,15 +317,29 @@ class RecordLayer(object):
         self.max_early_data = 0
         self._early_data_processed = 0
         self.send_record_limit = 2**14
+        self._recv_record_limit = self._recordSocket.recv_record_limit
 
     @property
     def recv_record_limit(self):
         """Maximum record size that is permitted for receiving."""
-        return self._recordSocket.recv_record_limit
+        return self._recv_record_limit
 
     @recv_record_limit.setter
     def recv_record_limit(self, value):
+        self._recv_record_limit = value
         self._recordSocket.recv_record_limit = value
+
+    def _effective_recv_limit(self):
+        """
+        Limit for the next record to be read.
+
+        The negotiated limit applies to protected records only (RFC 8449,
+        section 4), plaintext handshake messages may use the default size.
+        """
+        if self._readState and (self._readState.encContext or
+                                self._readState.macContext):
+            return self._recv_record_limit
+        return 2**14
 
     @property
     def early_data_ok(self):
@@ -904,6 +918,8 @@ class RecordLayer(object):
         """
         while True:
             result = None
+            recv_limit = self._effective_recv_limit()
+            self._recordSocket.recv_record_limit = recv_limit
             for result in self._recordSocket.recv():
                 if result in (0, 1):
                     yield result
@@ -980,13 +996,13 @@ class RecordLayer(object):
                     self._readState.encContext and\
                     header.type == ContentType.application_data:
                 # check if plaintext is not too big, RFC 8446, section 5.4
-                if len(data) > self.recv_record_limit + 1:
+                if len(data) > recv_limit + 1:
                     raise TLSRecordOverflow()
                 data, contentType = self._tls13_de_pad(data)
                 header = RecordHeader3().create((3, 4), contentType, len(data))
 
             # RFC 5246, section 6.2.1
-            if len(data) > self.recv_record_limit:
+            if len(data) > recv_limit:
                 raise TLSRecordOverflow()
 
             yield (header, Parser(data))
